@@ -20,7 +20,7 @@ import os
 from hypothesis import strategies as st
 
 from vf import runner
-from vf.engine import Case, Failure, h
+from vf.engine import Case, Failure, h, live_first
 from vf.oracle import c18_placement as model
 from vf.project import Project, to_yaml
 
@@ -59,7 +59,7 @@ FIXED_TREE = ["a.py", "test_a.py", "B.tsx", "src/a.py", "src/test_a.py", "src/B.
 EX_KEYS = ["src", "src/api", "tests", "lib"]
 EX_PATTERNS = [r".*\.py$", r"test_.*\.py$", r"^src/"]
 
-DEVIATIONS = ("dir-key-string-prefix", "global-rules-on-covered-files", "patterns-case-insensitive", "relative-path-as-given")
+DEVIATIONS = tuple(live_first("C18", ("dir-key-string-prefix", "global-rules-on-covered-files", "patterns-case-insensitive", "relative-path-as-given")))
 
 
 # ------------------------------------------------------------------------------------ strategies
